@@ -256,11 +256,25 @@ func (c *Ctx) checkSingleSend(r *Report, rule string, f *ssa.Function, send ssa.
 			bad = "inconsistent return"
 		}
 	}
+	// a return that reports success (constant nil error) must have passed the send: "accepted" means "forwarded"
+	for _, b := range f.Blocks {
+		ret, ok := b.Instrs[len(b.Instrs)-1].(*ssa.Return)
+		if !ok || len(ret.Results) == 0 {
+			continue
+		}
+		last := retVal(ret, len(ret.Results)-1)
+		if !isNilConst(last) {
+			continue
+		}
+		if skip, _ := pathExists(f, nil, func(i ssa.Instruction) bool { return i == ssa.Instruction(ret) }, func(i ssa.Instruction) bool { return i == send }); skip {
+			bad = "a path returns nil (the packet is accepted, the session goes on) without handing anything to the sender (" + c.instrPos(ret) + "): the packet is silently dropped"
+		}
+	}
 	if bad != "" {
 		r.bad(rule, key, c.instrPos(send), bad)
 		return
 	}
-	r.ok(rule, key, c.instrPos(send), "one send site, outside loops; every return after it returns its result; error returns do not pass it")
+	r.ok(rule, key, c.instrPos(send), "one send site, outside loops; every return after it returns its result; error returns do not pass it; no nil return without the send")
 }
 
 // valueIsField: v's single origin is <incoming T>.<path>.
